@@ -167,6 +167,8 @@ def run_paste(ctx, spec):
             check_list(ctx, st, s, cmd, want, exp_line)
             if depth[(ci, oid)] > 1:
                 ctx.sig([h64([e['line'] for e in st['entries'][:50]]), ci, oid, gen])
+        if not deep:
+            accumulate(ctx, rng, st, s, labels, order)
         # two distinct incarnations on one connection never share a label: by construction of the comparison above the
         # displayed labels equal the model's, which are distinct; additionally assert it on what was displayed
         shown = {}
@@ -181,6 +183,77 @@ def run_paste(ctx, spec):
             ctx.sample({'command': 'list %s: %d%s' % (st['names'][ci], oid, history.letters(gen)), 'expected_line_indices': sorted(set(labels[order[0]]))[:20]})
         if ctx.out_of_time():
             break
+
+
+def accumulate(ctx, rng, st, s, labels, order):
+    """displayed labels given as alternatives / exclusions of `filter` and `breakpoint`, several commands in a row: the
+    accumulated matcher selects (some alternative's messages, or everything while there is none) minus every exclusion's"""
+    msgs = list(s.ctl.all_messages)
+    if len(msgs) != len(st['entries']) or not order:
+        ctx.count('accumulate_skipped')
+        return
+    by_conn = {}
+    for i, e in enumerate(st['entries']):
+        by_conn.setdefault(e['ci'], set()).add(i)
+    state = {'filter': ([], []), 'breakpoint': ([], [])}
+    cmds = []
+    # labels that stand for many lines overlap each other: those are the ones whose combination can be told apart
+    busy = sorted(labels, key=lambda x: -len(labels[x]))[:12]
+    focus = rng.choice(list(st['names']))
+    for step in range(rng.randint(3, 7)):
+        kind = rng.choice(['filter', 'breakpoint'])
+        pos, neg = [], []
+        texts = []
+        for _ in range(rng.choice([1, 1, 2])):
+            r0 = rng.random()
+            if r0 < 0.25:
+                # an ordinary dotted pattern typed in between, as in a real session
+                # (`new` and `destroyed` also name pseudo-messages: not used here, C05 has them)
+                e = rng.choice([x for x in st['entries'] if x['rec']['name'] not in ('new', 'destroyed')])
+                T, N = e['rec']['gt']['target'][0], e['rec']['name']
+                text, sel = '%s.%s' % (T, N), set(i for i, x in enumerate(st['entries']) if x['rec']['name'] == N and x['rec']['gt']['target'][0] == T)
+            elif r0 < 0.4:
+                ci = focus if rng.random() < 0.6 else rng.choice(list(st['names']))
+                text, sel = '%s:' % st['names'][ci], by_conn[ci]
+            else:
+                ci, oid, gen = rng.choice(busy if rng.random() < 0.5 else order[:80])
+                text, sel = '%s: %d%s' % (st['names'][ci], oid, history.letters(gen)), set(labels[(ci, oid, gen)])
+            texts.append((text, sel))
+        r = rng.random()
+        if r < 0.35:
+            arg = '! ' + ', '.join(t for t, _ in texts)
+            neg = [x for _, x in texts]
+        elif r < 0.5 and len(texts) > 1:
+            arg = texts[0][0] + ' ! ' + texts[1][0]
+            pos, neg = [texts[0][1]], [texts[1][1]]
+        else:
+            arg = ', '.join(t for t, _ in texts)
+            pos = [x for _, x in texts]
+        cmd = '%s %s' % (kind, arg)
+        cmds.append(cmd)
+        n0 = len(s.events)
+        s.command(cmd)
+        errs = [outline.strip_sgr(p) for k, p in s.events[n0:] if k == 'err']
+        case = objcheck.case_of(st)
+        case['commands'] = list(cmds)
+        ctx.ev()
+        if errs:
+            ctx.violation('label-rejected', '%r -> %r' % (cmd, errs[:2]), case)
+            return
+        state[kind] = (state[kind][0] + pos, state[kind][1] + neg)
+        for which, m in (('filter', s.ctl.display_matcher), ('breakpoint', s.ctl.stop_matcher)):
+            P, N = state[which]
+            if not P and not N:
+                continue
+            for i, x in enumerate(msgs):
+                want = (not P or any(i in q for q in P)) and not any(i in q for q in N)
+                got = bool(m.matches(x))
+                if want != got:
+                    ctx.violation('label-accumulation', 'after %r the %s matcher %s line %d %r; the labels given stand for lines %s minus %s' % (
+                        cmds, which, 'selects' if got else 'does not select', i, st['entries'][i]['line'][:100],
+                        'any' if not P else sorted(set().union(*P))[:12], sorted(set().union(*N))[:12] if N else '{}'), case)
+                    return
+        ctx.count('accumulation_steps')
 
 
 def check_list(ctx, st, s, cmd, want_idx, exp_line):
@@ -292,6 +365,14 @@ def replay(ctx, case):
         from ..session import Session
         s = Session()
         s.feed([l + '\n' for l in case['lines']])
+        if 'commands' in case:
+            n0 = len(s.events)
+            for c in case['commands']:
+                s.command(c)
+            print('\n'.join(outline.strip_sgr(p) for k, p in s.events[n0:] if k in ('cmd', 'out', 'err')))
+            sel = {w: [i for i, x in enumerate(s.ctl.all_messages) if m.matches(x)] for w, m in (('filter', s.ctl.display_matcher), ('breakpoint', s.ctl.stop_matcher))}
+            print('selected lines:', {w: v[:40] for w, v in sel.items()})
+            return
         msgs, tail, outs, errs = listed(s, case['command'])
         print('\n'.join(outs + errs))
     else:
